@@ -47,7 +47,7 @@ PROPS["C06"] = dict(
     level_note="Primitives recorded, not executed (they are C03-C05). Piece lengths <= 40 per call; any number of calls by induction over the arbitrary context.",
 )
 PROPS["C07"] = dict(
-    prefixes=["c07_", "c18_tag_eq"],
+    prefixes=["c07_", "c18_tag_eq", "c06_decrypt", "c06_to_decryption"],
     level="model_checking",
     bounds="all 2^128 x 2^128 (computed tag, supplied tag) pairs; arbitrary context; received ciphertext piece 0..=24 bytes for the one-shot path",
     outside="that a change of key/nonce/AAD/ciphertext changes the Poly1305 value is the cryptographic assumption of the MAC, not a solver-decidable statement; what is decided: "
